@@ -21,6 +21,32 @@ def pkey(p):
     return f"{p['scope']}|{p['obj'].name}"
 
 
+PARTIAL = __import__("re").compile(r"(?:std::io::Read|AsyncReadExt|ReadExt|AsyncRead|BufRead)::(read|read_buf|read_vectored|poll_read|take|bytes|chain|fill_buf|read_until|read_line)$")
+
+
+def check_partial_reads(ctx, g):
+    """A decode path may only use complete reads (read_exact / read_to_end): a single `read` returns however many bytes the
+    source (a zlib decoder, a slice, a socket) happens to deliver in one step, so the decoded value depends on buffering.
+    Applies to every receiver, in-memory decoders included."""
+    n = 0
+    complete = 0
+    for crate in ("wow_world_messages", "wow_login_messages"):
+        F = g.f(crate)
+        for m in F.all("mir"):
+            for call in m["calls"]:
+                callee = call[1] or ""
+                if callee.endswith(("::read_exact", "::read_to_end")) and ("Read" in callee):
+                    complete += 1
+                mm = PARTIAL.search(callee)
+                if mm:
+                    n += 1
+                    ctx.violate("io.complete-reads", f"{crate}::{m['path']}|{mm.group(1)}", f"{m['path']} calls {callee} ({(call[3] or '')[:60]}): a partial read; "
+                                "the number of bytes it delivers depends on internal buffering (e.g. a ZlibDecoder inflates at most one input buffer per call), so large inputs are decoded from a partly filled buffer", None, None)
+    if not PARTIAL.search("std::io::Read::read") or PARTIAL.search("std::io::Read::read_exact"):
+        ctx.violate("io.complete-reads", "fixture", "the partial-read matcher fails its positive/negative example")
+    ctx.rule("io.complete-reads", complete, floor=340, note=f"complete reads (read_exact/read_to_end) on decode paths; partial-read calls found: {n} (expected 0; matcher fixture checked)")
+
+
 def run(ctx):
     st = state()
     n_read = n_write = 0
@@ -82,6 +108,7 @@ def run(ctx):
     n_opc = opcodes.check_all(ctx)
     from . import c01_leaf
     leaf_cases = c01_leaf.run(ctx)
+    check_partial_reads(ctx, st["g"])
     ctx.rule("lay.read-write-ref", n_read + n_write, floor=READ_FLOOR + WRITE_FLOOR,
              note=f"{n_read} reader and {n_write} writer layouts of {n_containers} containers vs wowm reference ({len(skipped)} non-wire helper structs skipped)")
     ctx.rule("opc.table", n_opc, floor=OPC_FLOOR, note="opcode enum arms / payload types / OPCODE consts / writer delegation")
